@@ -21,7 +21,7 @@ RULE = (
 ASSUMPTIONS = [
     "equality is on vlib.snapshot's public-attribute snapshot with its documented normalisations (module names cut to 32 UTF-8 bytes, "
     "trailing empty module positions and trailing freed link slots dropped, flags OR default flags, midi_out_name '' == None)",
-    "sunvox_version is the writer's identity and is left at the library's value",
+    "sunvox_version (the version the file is written as) is drawn too; it is not itself compared after loading (a loaded project carries the library's own version), and for versions before 1.9.5.0 the documented reader rule - module columns of pattern cells are 8 bits - is applied to the expected state",
 ]
 REQUIRED_LABELS = {
     "quick": ["gap", "clone", "empty_pattern_slot", "name_straddles_32", "links", "freed_link_slot", "cells", "project_fields", "second_stage", "metamodule_nested_2_levels", "project_with_more_than_255_modules"],
